@@ -96,6 +96,16 @@ def genBeta : P String := do
   let n := nvec_all ph th
   pure (flist ([beta a b c ph th] ++ n ++ [betaN (v3Of #[a, b, c]) (v3Of n.toArray)]))
 
+/-- el.beta.axes a b c phi theta k → quadForm r n | radicand of `_beta` from the sines / cosines | betaN of the
+jointly relabelled (r, n) (relabelling k of `perm6`) | the x↔y mirrored radicand — with n = the traced `_n(phi, theta)` -/
+def betaAxes : P String := do
+  let a ← flt; let b ← flt; let c ← flt; let ph ← flt; let th ← flt; let k ← nat
+  let r := v3Of #[a, b, c]
+  let n := v3Of (nvec_all ph th).toArray
+  let sp := Trans.sin ph; let cp := Trans.cos ph; let st := Trans.sin th; let ct := Trans.cos th
+  pure (flist [quadForm r n, betaSqSC a b c sp cp st ct, betaN (permV3 (perm6 k) r) (permV3 (perm6 k) n),
+               betaSqMirrored a b c sp cp st ct, quadForm r (nSC sp cp st ct)])
+
 /-! ### tensor utilities -/
 /-- el.conv6 c6(36) → convert2To4 (81) | convert4To2 of it (36) -/
 def conv6 : P String := do
@@ -277,6 +287,7 @@ def handle (verb : String) : Option (P String) :=
   | "el.gen.khach" => some genKhach
   | "el.gen.inv3" => some genInv3
   | "el.gen.beta" => some genBeta
+  | "el.beta.axes" => some betaAxes
   | "el.conv6" => some conv6
   | "el.conv4" => some conv4
   | "el.vec" => some vec
